@@ -217,12 +217,14 @@ boundaries of the current text and leaving it non-empty; non-trivial = at least 
             }
         }
         let changes_len = batches.iter().flatten().any(|e| e.w.len() != e.e - e.s);
+        // `commit=` names the length guard of the linked tree's `resolve_edits`/`commit` (probe in c03.rs) for the model
         let payload = format!(
-            "orig={} batches={}",
+            "orig={} batches={} commit={}",
             hex(orig.as_bytes()),
             if batches.is_empty() { "".to_string() } else {
                 batches.iter().map(|b| if b.is_empty() { "-".to_string() } else { b.iter().map(|e| format!("{}:{}:{}", e.s, e.e, hex(e.w.as_bytes()))).collect::<Vec<_>>().join(",") }).collect::<Vec<_>>().join(";")
-            }
+            },
+            crate::c03::commit_variant()
         );
         let (ans, fail) = run_edit_case(&dic, &orig, &batches, None);
         run.bump(&format!("batches:{}", batches.len()));
